@@ -34,7 +34,7 @@ def rand_path(rng, odd=0.15):
 
 def _set_for(rng, c, negate):
     """A bracket expression that accepts c (or, negated, still accepts c)."""
-    pool = PLAIN + '.+$^'
+    pool = PLAIN + '.+$^()|~_=:@\\'
     if c == '-':
         # the only way to list '-' itself: at the end of the string, where the
         # spec gives it no special meaning
@@ -60,8 +60,13 @@ def _set_for(rng, c, negate):
     if body[0] == '!':
         # '!' is only special right after '['
         body = (body[1:] or rng.choice(PLAIN)) + '!'
-    if rng.random() < 0.08:
+    r = rng.random()
+    if r < 0.08:
         body += '-'                  # spec: trailing minus is a plain '-'
+    elif r < 0.13 and not negate:
+        body = '-' + body            # nothing on its left: a plain '-' too
+    elif r < 0.18 and c.isalnum():
+        body += rng.choice(['0-z', '!-~', '0-9a-z'])    # wide ASCII ranges
     return '[' + body + ']'
 
 
@@ -89,6 +94,8 @@ def generalise_part(rng, part, p=0.35):
                 alts = [part[i:j]] + [rand_part(rng, 1, 3, odd=0.05)
                                       for _ in range(rng.randint(1, 2))]
                 alts = [a for a in alts if not any(ch in a for ch in ',{}[]*?')]
+                if rng.random() < 0.1 and j < len(part):
+                    alts.append('')          # empty alternative: matches nothing extra
                 rng.shuffle(alts)
                 out.append('{' + ','.join(alts) + '}'); i = j
     if rng.random() < 0.1:
